@@ -3,6 +3,7 @@ import IcyVerif.Gen.Loops
 import IcyVerif.Lemmas.RectCost
 import IcyVerif.Lemmas.FontLoad
 import IcyVerif.Lemmas.PalCost
+import IcyVerif.Gen.TermResize
 /-! # C03 — work per input is bounded by screen size, not by numbers in the input
 What is proved (about the TermGeo model of the repaired code, for every parameter value):
 * every parameter-driven loop count of the ANSI parser is bounded by the screen (`*_le` theorems); the table
@@ -13,8 +14,10 @@ What is proved (about the TermGeo model of the repaired code, for every paramete
 * macro replay is bounded: one input character executes at most 1 + 65536 parser steps whatever the macros are
   (`macro_expansion_bounded`, by a potential argument over nesting depth and expansion budget).
 What the model cannot exhibit (labelled partial): wall-clock time, allocator behaviour, stack size — the oracle run
-of `harness/src/c03.rs` measures those on the real code (time and row growth per token, address-space cap);
-sixel raster/repeat headers and the binary art-file headers are oracle-only.
+of `harness/src/c03.rs` measures those on the real code (time and row growth per token, address-space cap).
+The binary art-file loaders are in `Props/C03Loaders.lean` (cost-instrumented loader models), the sixel decoder in
+`Props/C03Sixel.lean`.  The screen-relative bounds below are absolute: `term_size_bounded` shows that the terminal size
+stays within the resize command's own clamps (regenerated) along every stream.
 Added for the loaders and the rectangle commands:
 * bitmap fonts (`BitFont::from_bytes`, also behind the `CTerm:Font:` DCS): the glyph loop runs at most once per byte of the
   file and the checksum loop at most max(512, file length) times, whatever height / length / charsize the header declares
@@ -258,6 +261,46 @@ theorem rect_count_le (nums : List Int) (off : Nat) (lines tw th : Int) (h1 : 1 
 /-- a rectangle parameter is at most `i32::MAX` however many digits it has (own copy of the number model for the
     rectangle driver) -/
 theorem rect_param_bounded (ds : List Nat) : IcyVerif.RectCost.paramOf ds ≤ 2147483647 := IcyVerif.RectCost.paramOf_le ds
+
+
+/-- the clamps of the text-area resize `CSI 8 ; rows ; cols t` as found in the source (regenerated) -/
+theorem resize_clamps_from_source :
+    IcyVerif.Gen.TermResize.minW = 1 ∧ IcyVerif.Gen.TermResize.maxW = 132 ∧
+    IcyVerif.Gen.TermResize.minH = 1 ∧ IcyVerif.Gen.TermResize.maxH = 60 ∧ IcyVerif.Gen.TermResize.sizeSetters = 2 := by decide
+
+/-- the terminal size stays within the resize command's own clamps along EVERY stream — resizes, resets, macros included:
+    this is what turns the per-command bounds above (stated for a screen satisfying `ScrOk`) into absolute bounds -/
+theorem term_size_bounded (w h : Int) (hw1 : 1 ≤ w) (hw2 : w ≤ 132) (hh1 : 1 ≤ h) (hh2 : h ≤ 60)
+    (cfg : Cfg) (o : Nat → Orc) (bytes : List Char) (st : St) (hrun : run cfg o (initSt w h) bytes = .ok st) :
+    IcyVerif.Gen.TermResize.minW ≤ st.s.tw ∧ st.s.tw ≤ IcyVerif.Gen.TermResize.maxW ∧
+    IcyVerif.Gen.TermResize.minH ≤ st.s.th ∧ st.s.th ≤ IcyVerif.Gen.TermResize.maxH ∧ ScrOk st.s := by
+  have hg := run_good cfg o bytes (initSt w h) (initSt_good w h hw1 hw2 hh1 hh2)
+  rw [hrun] at hg
+  have hk : ScrOk st.s := hg.1
+  exact ⟨hk.tw1, hk.tw2, hk.th1, hk.th2, hk⟩
+
+/-- … so after ANY stream (for instance one that asked for 2^31 - 1 rows) a repeat-style command runs at most a screenful of
+    the largest screen: REP <= 7920 characters, scrolls / line inserts <= 60, column inserts <= 132 -/
+theorem repeat_counts_absolute (w h : Int) (hw1 : 1 ≤ w) (hw2 : w ≤ 132) (hh1 : 1 ≤ h) (hh2 : h ≤ 60)
+    (cfg : Cfg) (o : Nat → Orc) (bytes : List Char) (st : St) (hrun : run cfg o (initSt w h) bytes = .ok st) (nums : List Int) :
+    repCount nums st.s ≤ 7920 ∧ scrollCount nums st.s ≤ 60 ∧ ilCount nums st.s ≤ 60 ∧ ichCount nums st.s ≤ 132 ∧
+    scrollLRCount nums st.s ≤ 132 ∧ ∀ y, upScrollCount y st.s ≤ 60 := by
+  have hk := (term_size_bounded w h hw1 hw2 hh1 hh2 cfg o bytes st hrun).2.2.2.2
+  exact ⟨rep_count_le nums st.s hk, scroll_count_le nums st.s hk, il_count_le nums st.s hk, ich_count_le nums st.s hk,
+    scroll_lr_count_le nums st.s hk, fun y => up_scroll_count_le y st.s hk⟩
+
+/-- the terminal size after a stream (0 x 0 when the model reports an arithmetic overflow) -/
+def sizeAfter (bytes : String) : Int × Int :=
+  match run { musicOpt := 0, bsCtrl := false } (fun _ => default) (initSt 80 25) bytes.toList with
+  | .ok st => (st.s.tw, st.s.th)
+  | .error _ => (0, 0)
+
+/-- the model's resize clamps ARE the regenerated ones: asking for 2^31 - 1 (0) rows and columns yields exactly the maximum
+    (minimum) found in the source — fails when either the source constants or the model literals change -/
+theorem resize_clamps_attained :
+    sizeAfter "\x1b[8;2147483647;2147483647t" = (IcyVerif.Gen.TermResize.maxW, IcyVerif.Gen.TermResize.maxH) ∧
+    sizeAfter "\x1b[8;0;0t" = (IcyVerif.Gen.TermResize.minW, IcyVerif.Gen.TermResize.minH) ∧
+    sizeAfter "\x1b[8;61;133t\x1b[2147483647S" = (132, 60) := by decide +kernel
 
 /-- non-vacuity: the table is not empty and the clamps are attained -/
 example : knownLoopIds.length = 78 := by decide
